@@ -1,5 +1,40 @@
-From HT Require Import Base.Prelude World.World.
-(* placeholder until the registry-walk theorems land *)
-Theorem C17_failed_tx_unchanged : forall w o e, exec w o = Err e -> step w o = w.
-Proof. intros w o e H. unfold step. now rewrite H. Qed.
-Print Assumptions C17_failed_tx_unchanged.
+(* C17 — Native-decimals updates reach every affected pair.
+   [RegOK w]: every factory record agrees field by field with the pair contract it names, the two
+   assets of a record differ, pair addresses are distinct and no two records have the same asset set.
+   [rec_updated dn k r] is r with decimals k in the position(s) holding native denom dn.
+   The model follows the repaired execute_add_native_token_decimals (KNOWN_FINDINGS.txt, fixed: C17). *)
+From HT Require Import Base.Prelude Num.Arith Amm.Formulas Amm.Guards World.World Proofs.FactoryProofs.
+
+(* re-registration: the denom table, EVERY record and (through RegOK w') every pair's own description
+   carry the new value in the denom's position; pairs without the denom, balances, owner untouched.
+   Induction over the unbounded registry list. *)
+Theorem C17_update : forall w c dn k w' old,
+  RegOK w -> w_natives w dn = Some old -> fac_add_native w c dn k = Ok w' ->
+  c = w_owner w /\ w_natives w' dn = Some k /\ (forall d, d <> dn -> w_natives w' d = w_natives w d) /\
+  w_reg w' = map (rec_updated dn k) (w_reg w) /\ RegOK w' /\
+  (forall q, (forall r, In r (w_reg w) -> f_pair r <> q) -> w_pairs w' q = w_pairs w q) /\
+  w_bank w' = w_bank w /\ w_next w' = w_next w /\ w_owner w' = w_owner w.
+Proof. exact fac_add_native_reaches_all. Qed.
+
+Theorem C17_first_registration : forall w c dn k w',
+  w_natives w dn = None -> fac_add_native w c dn k = Ok w' ->
+  c = w_owner w /\ w_natives w' dn = Some k /\ w_reg w' = w_reg w /\ w_pairs w' = w_pairs w /\ w_bank w' = w_bank w.
+Proof. exact fac_add_native_fresh. Qed.
+
+(* record and self-description never diverge: RegOK holds initially and is kept by creations,
+   registrations and by anything that leaves registry and pair descriptions alone *)
+Theorem C17_consistent_init : forall w, w_reg w = [] -> RegOK w.
+Proof. exact RegOK_empty. Qed.
+Theorem C17_consistent_create : forall w c a0 a1 wl m0 m1 cm ld w',
+  RegOK w -> (forall q, w_next w <= q -> w_pairs w q = None) ->
+  fac_create_pair w c a0 a1 wl m0 m1 cm ld = Ok w' -> RegOK w' /\ (forall q, w_next w' <= q -> w_pairs w' q = None).
+Proof. exact fac_create_pair_RegOK. Qed.
+Theorem C17_consistent_frame : forall w w',
+  RegOK w -> w_reg w' = w_reg w -> w_pairs w' = w_pairs w -> w_fac w' = w_fac w -> w_next w' = w_next w -> RegOK w'.
+Proof. exact RegOK_same_config. Qed.
+
+Print Assumptions C17_update.
+Print Assumptions C17_first_registration.
+Print Assumptions C17_consistent_init.
+Print Assumptions C17_consistent_create.
+Print Assumptions C17_consistent_frame.
